@@ -49,8 +49,10 @@ TAINT_SOURCES = set("123456789@*") | {"0"}
 def script_path(name):
     p = os.path.join(REPO, "src", "scripts", name + ".in")
     ov = os.environ.get("XZ_VERIF_FILE_OVERRIDE")
-    if ov:
-        orig, repl = ov.split("=", 1)
+    for pair in (ov or "").split(","):
+        if "=" not in pair:
+            continue
+        orig, repl = pair.split("=", 1)
         if os.path.abspath(orig) == os.path.abspath(p):
             return repl, p
     return p, p
